@@ -22,7 +22,6 @@ Node == 0..(N - 1)
 RECURSIVE Sum(_)
 Sum(S) == IF S = {} THEN 0 ELSE LET x == CHOOSE y \in S : TRUE IN Stake[x] + Sum(S \ {x})
 Quorum == (2 * Sum(Node)) \div 3 + 1
-Leader(r) == r % N
 
 VARIABLES pendingTx,  \* transactions not yet submitted
           open,       \* [Node -> set of txs in the current batch]
@@ -33,27 +32,29 @@ VARIABLES pendingTx,  \* transactions not yet submitted
           acks,       \* [batch id -> set of nodes whose ACK reached the creator]
           store,      \* [Node -> set of batch ids in the node's store]
           buffer,     \* [Node -> set of batch ids the proposer may include]
-          round,      \* current round of the (abstracted) consensus
-          blocks,     \* [round -> payload (set of batch ids)] for proposed rounds
+          round,      \* current round of the (abstracted) consensus: number of payload-carrying blocks proposed so far + 1
+          off,        \* leaders whose buffer was empty pass their turn: the leader of `round` is (round + off) % N
+          blocks,     \* [round -> [ld, payload (set of batch ids)]] for proposed rounds
           voted,      \* [round -> set of nodes that voted]
           waiting,    \* [Node -> set of rounds whose block waits for missing batches]
           requested,  \* batch requests in flight: set of <<requester, batch id, asked node>>
           committed,  \* [Node -> sequence of rounds committed]
           released    \* batches handed on by their creator's QuorumWaiter, with the acknowledgements it had then
-vars == <<pendingTx, open, batch, nsealed, wire, lost, acks, store, buffer, round, blocks, voted, waiting, requested, committed, released>>
+vars == <<pendingTx, open, batch, nsealed, wire, lost, acks, store, buffer, round, off, blocks, voted, waiting, requested, committed, released>>
 
 Init ==
   /\ pendingTx = Txs /\ open = [n \in Node |-> {}] /\ batch = <<>> /\ nsealed = [n \in Node |-> 0]
   /\ wire = {} /\ lost = {} /\ acks = <<>> /\ store = [n \in Node |-> {}] /\ buffer = [n \in Node |-> {}]
-  /\ round = 1 /\ blocks = <<>> /\ voted = <<>> /\ waiting = [n \in Node |-> {}] /\ requested = {}
+  /\ round = 1 /\ off = 0 /\ blocks = <<>> /\ voted = <<>> /\ waiting = [n \in Node |-> {}] /\ requested = {}
   /\ committed = [n \in Node |-> <<>>] /\ released = {}
 
+Ld == (round + off) % N          \* whose turn it is
 Ext(f, k, v) == [x \in DOMAIN f \cup {k} |-> IF x = k THEN v ELSE f[x]]
 
 \* ---- mempool ------------------------------------------------------------------------------------------
 Submit(n, tx) ==
   /\ tx \in pendingTx /\ pendingTx' = pendingTx \ {tx} /\ open' = [open EXCEPT ![n] = @ \cup {tx}]
-  /\ UNCHANGED <<batch, nsealed, wire, lost, acks, store, buffer, round, blocks, voted, waiting, requested, committed, released>>
+  /\ UNCHANGED <<batch, nsealed, wire, lost, acks, store, buffer, round, off, blocks, voted, waiting, requested, committed, released>>
 \* BatchMaker::seal: broadcast to every other mempool; one broadcast per run of this model may be lost for ever
 Seal(n, dropTo) ==
   /\ open[n] # {}
@@ -67,14 +68,14 @@ Seal(n, dropTo) ==
           ELSE UNCHANGED <<store, buffer>>
   /\ dropTo \subseteq Node \ {n} /\ Cardinality(dropTo) <= 1 /\ Cardinality(lost) + Cardinality(dropTo) <= 1
   /\ open' = [open EXCEPT ![n] = {}] /\ nsealed' = [nsealed EXCEPT ![n] = @ + 1]
-  /\ UNCHANGED <<pendingTx, round, blocks, voted, waiting, requested, committed, released>>
+  /\ UNCHANGED <<pendingTx, round, off, blocks, voted, waiting, requested, committed, released>>
 \* a peer receives the batch: ACK, Processor stores it and announces the digest to its consensus
 Receive(id, m) ==
   /\ <<id, m>> \in wire /\ wire' = wire \ {<<id, m>>}
   /\ acks' = [acks EXCEPT ![id] = @ \cup {m}]
   /\ store' = [store EXCEPT ![m] = @ \cup {id}]
   /\ buffer' = [buffer EXCEPT ![m] = IF "no_announce" \in Weak THEN @ ELSE @ \cup {id}]
-  /\ UNCHANGED <<pendingTx, open, batch, nsealed, lost, round, blocks, voted, waiting, requested, committed, released>>
+  /\ UNCHANGED <<pendingTx, open, batch, nsealed, lost, round, off, blocks, voted, waiting, requested, committed, released>>
 \* QuorumWaiter + Processor on the creator's side
 Release(id) ==
   LET n == batch[id].creator IN
@@ -83,24 +84,28 @@ Release(id) ==
   /\ store' = [store EXCEPT ![n] = @ \cup {id}]
   /\ buffer' = [buffer EXCEPT ![n] = IF "no_announce" \in Weak THEN @ ELSE @ \cup {id}]
   /\ released' = released \cup {[id |-> id, acks |-> acks[id]]}
-  /\ UNCHANGED <<pendingTx, open, batch, nsealed, wire, lost, acks, round, blocks, voted, waiting, requested, committed>>
+  /\ UNCHANGED <<pendingTx, open, batch, nsealed, wire, lost, acks, round, off, blocks, voted, waiting, requested, committed>>
 
 \* ---- consensus (abstracted) -----------------------------------------------------------------------------
 Propose ==
-  /\ round <= MaxRound /\ round \notin DOMAIN blocks
-  /\ LET ld == Leader(round) IN
-       /\ blocks' = Ext(blocks, round, buffer[ld]) /\ voted' = Ext(voted, round, {ld})
-       /\ buffer' = [buffer EXCEPT ![ld] = {}]
-  /\ UNCHANGED <<pendingTx, open, batch, nsealed, wire, lost, acks, store, round, waiting, requested, committed, released>>
+  /\ round <= MaxRound /\ round \notin DOMAIN blocks /\ buffer[Ld] # {}
+  /\ blocks' = Ext(blocks, round, [ld |-> Ld, payload |-> buffer[Ld]]) /\ voted' = Ext(voted, round, {Ld})
+  /\ buffer' = [buffer EXCEPT ![Ld] = {}]
+  /\ UNCHANGED <<pendingTx, open, batch, nsealed, wire, lost, acks, store, round, off, waiting, requested, committed, released>>
+\* a leader with nothing to propose passes (empty blocks are abstracted away)
+Pass ==
+  /\ round <= MaxRound /\ round \notin DOMAIN blocks /\ buffer[Ld] = {}
+  /\ off' = (off + 1) % N
+  /\ UNCHANGED <<pendingTx, open, batch, nsealed, wire, lost, acks, store, buffer, round, blocks, voted, waiting, requested, committed, released>>
 \* handle_proposal at n: vote if every batch is stored locally, otherwise wait and ask the proposer
 Handle(n, r) ==
-  /\ r \in DOMAIN blocks /\ n \notin voted[r] /\ r \notin waiting[n] /\ n # Leader(r)
-  /\ IF blocks[r] \subseteq store[n] \/ "vote_blind" \in Weak
+  /\ r \in DOMAIN blocks /\ n \notin voted[r] /\ r \notin waiting[n] /\ n # blocks[r].ld
+  /\ IF blocks[r].payload \subseteq store[n] \/ "vote_blind" \in Weak
      THEN voted' = [voted EXCEPT ![r] = @ \cup {n}] /\ UNCHANGED <<waiting, requested, released>>
      ELSE /\ waiting' = [waiting EXCEPT ![n] = @ \cup {r}]
-          /\ requested' = requested \cup {<<n, b, Leader(r)>> : b \in blocks[r] \ store[n]}
+          /\ requested' = requested \cup {<<n, b, blocks[r].ld>> : b \in blocks[r].payload \ store[n]}
           /\ UNCHANGED voted
-  /\ UNCHANGED <<pendingTx, open, batch, nsealed, wire, lost, acks, store, buffer, round, blocks, committed, released>>
+  /\ UNCHANGED <<pendingTx, open, batch, nsealed, wire, lost, acks, store, buffer, round, off, blocks, committed, released>>
 \* mempool Helper: answer with the batch if it is in the store (a lost request is retried with another peer)
 Reply(n, b, from) ==
   /\ <<n, b, from>> \in requested /\ "no_batch_sync" \notin Weak
@@ -108,41 +113,48 @@ Reply(n, b, from) ==
   /\ IF b \in store[from]
      THEN store' = [store EXCEPT ![n] = @ \cup {b}] /\ buffer' = [buffer EXCEPT ![n] = @ \cup {b}]
      ELSE UNCHANGED <<store, buffer>>
-  /\ UNCHANGED <<pendingTx, open, batch, nsealed, wire, lost, acks, round, blocks, voted, waiting, committed, released>>
+  /\ UNCHANGED <<pendingTx, open, batch, nsealed, wire, lost, acks, round, off, blocks, voted, waiting, committed, released>>
 Retry(n, b) ==
-  /\ b \notin store[n] /\ \E r \in waiting[n] : b \in blocks[r]
+  /\ b \notin store[n] /\ \E r \in waiting[n] : b \in blocks[r].payload
   /\ ~\E x \in requested : x[1] = n /\ x[2] = b
   /\ \E m \in Node \ {n} : b \in store[m] /\ requested' = requested \cup {<<n, b, m>>}
-  /\ UNCHANGED <<pendingTx, open, batch, nsealed, wire, lost, acks, store, buffer, round, blocks, voted, waiting, committed, released>>
+  /\ UNCHANGED <<pendingTx, open, batch, nsealed, wire, lost, acks, store, buffer, round, off, blocks, voted, waiting, committed, released>>
 \* payload waiter: all batches arrived -> the block is processed and voted
 Resume(n, r) ==
-  /\ r \in waiting[n] /\ blocks[r] \subseteq store[n]
+  /\ r \in waiting[n] /\ blocks[r].payload \subseteq store[n]
   /\ waiting' = [waiting EXCEPT ![n] = @ \ {r}] /\ voted' = [voted EXCEPT ![r] = @ \cup {n}]
-  /\ UNCHANGED <<pendingTx, open, batch, nsealed, wire, lost, acks, store, buffer, round, blocks, requested, committed, released>>
+  /\ UNCHANGED <<pendingTx, open, batch, nsealed, wire, lost, acks, store, buffer, round, off, blocks, requested, committed, released>>
 \* a quorum voted: the round is over; every node that voted commits it (the others when they resume)
 NextRound ==
   /\ round \in DOMAIN blocks /\ Sum(voted[round]) >= Quorum
   /\ round' = round + 1
-  /\ UNCHANGED <<pendingTx, open, batch, nsealed, wire, lost, acks, store, buffer, blocks, voted, waiting, requested, committed, released>>
+  /\ UNCHANGED <<pendingTx, open, batch, nsealed, wire, lost, acks, store, buffer, off, blocks, voted, waiting, requested, committed, released>>
 CommitAt(n, r) ==
   /\ r \in DOMAIN blocks /\ r < round /\ n \in voted[r]
   /\ r = Len(committed[n]) + 1
   /\ committed' = [committed EXCEPT ![n] = Append(@, r)]
   \* cleanup_proposer: committed digests leave the buffer
-  /\ buffer' = [buffer EXCEPT ![n] = @ \ blocks[r]]
-  /\ UNCHANGED <<pendingTx, open, batch, nsealed, wire, lost, acks, store, round, blocks, voted, waiting, requested, released>>
+  /\ buffer' = [buffer EXCEPT ![n] = @ \ blocks[r].payload]
+  /\ UNCHANGED <<pendingTx, open, batch, nsealed, wire, lost, acks, store, round, off, blocks, voted, waiting, requested, released>>
 
 Next ==
   \/ \E n \in Node, tx \in Txs : Submit(n, tx)
   \/ \E n \in Node, d \in SUBSET Node : Seal(n, d)
   \/ \E id \in DOMAIN batch, m \in Node : Receive(id, m)
   \/ \E id \in DOMAIN batch : Release(id)
-  \/ Propose \/ NextRound
+  \/ Propose \/ Pass \/ NextRound
   \/ \E n \in Node, r \in 1..MaxRound : Handle(n, r) \/ Resume(n, r) \/ CommitAt(n, r)
   \/ \E x \in requested : Reply(x[1], x[2], x[3])
   \/ \E n \in Node, b \in DOMAIN batch : Retry(n, b)
 Spec == Init /\ [][Next]_vars
-FairSpec == Spec /\ WF_vars(Next)
+\* fairness of every component that the code runs as its own task (not of Pass: an idle leader may pass for ever)
+FairSpec == Spec
+  /\ WF_vars(\E n \in Node, tx \in Txs : Submit(n, tx)) /\ WF_vars(\E n \in Node : Seal(n, {}))
+  /\ WF_vars(\E id \in DOMAIN batch, m \in Node : Receive(id, m)) /\ WF_vars(\E id \in DOMAIN batch : Release(id))
+  /\ WF_vars(Propose) /\ WF_vars(Pass) /\ WF_vars(NextRound)
+  /\ WF_vars(\E n \in Node, r \in 1..MaxRound : Handle(n, r)) /\ WF_vars(\E n \in Node, r \in 1..MaxRound : Resume(n, r))
+  /\ WF_vars(\E n \in Node, r \in 1..MaxRound : CommitAt(n, r))
+  /\ WF_vars(\E x \in requested : Reply(x[1], x[2], x[3])) /\ WF_vars(\E n \in Node, b \in DOMAIN batch : Retry(n, b))
 
 -----------------------------------------------------------------------------
 \* C12: the creator's QuorumWaiter hands a batch on only with a quorum of acknowledgements (counting itself).  Note what TLC
@@ -151,14 +163,14 @@ FairSpec == Spec /\ WF_vars(Next)
 \* its quorum -- by then the batch is stored by the peer, the creator and every voter, so availability is not at risk.
 ReleaseHasQuorum == \A x \in released : Stake[batch[x.id].creator] + Sum(x.acks) >= Quorum
 OwnProposedIsAvailable ==
-  \A r \in DOMAIN blocks : \A b \in blocks[r] :
-     batch[b].creator = Leader(r) => (Stake[Leader(r)] + Sum(acks[b]) >= Quorum \/ \E q \in 1..(r - 1) : b \in blocks[q])
+  \A r \in DOMAIN blocks : \A b \in blocks[r].payload :
+     batch[b].creator = blocks[r].ld => (Stake[blocks[r].ld] + Sum(acks[b]) >= Quorum \/ \E q \in 1..(r - 1) : b \in blocks[q].payload)
 \* C08: whoever voted for a block (other than its proposer) stores all its batches; whoever committed it too
-VoteHasPayload == \A r \in DOMAIN blocks : \A n \in voted[r] : n = Leader(r) \/ blocks[r] \subseteq store[n]
-CommitHasPayload == \A n \in Node : \A i \in 1..Len(committed[n]) : blocks[committed[n][i]] \subseteq store[n]
+VoteHasPayload == \A r \in DOMAIN blocks : \A n \in voted[r] : n = blocks[r].ld \/ blocks[r].payload \subseteq store[n]
+CommitHasPayload == \A n \in Node : \A i \in 1..Len(committed[n]) : blocks[committed[n][i]].payload \subseteq store[n]
 \* C13 (liveness, fault-free period, rounds not exhausted): every submitted transaction ends up in a committed block at every
 \* node, with the batch readable there; a node that lacks a batch obtains it and resumes instead of stalling
-TxCommittedAt(tx, n) == \E i \in 1..Len(committed[n]) : \E b \in blocks[committed[n][i]] : tx \in batch[b].txs /\ b \in store[n]
+TxCommittedAt(tx, n) == \E i \in 1..Len(committed[n]) : \E b \in blocks[committed[n][i]].payload : tx \in batch[b].txs /\ b \in store[n]
 EndToEnd == <>(\/ \A tx \in Txs, n \in Node : TxCommittedAt(tx, n)
                \/ round > MaxRound)
 NoStall == \A n \in Node : [](\A r \in 1..MaxRound : (r \in waiting[n]) => <>(r \notin waiting[n] \/ round > MaxRound))
